@@ -176,11 +176,13 @@ PROPS = {
                        'time.Now() drift during the run is far below the idle-age margins used by the generator'],
     'engines': [('coord', 1200, 24000, ['-propok', 'c04_case', '-shardsize', '100'])],
     'level_note': 'Trusted: Coq kernel; hand-written cycle model tied to the Go code by differential runs under all schedules; generated constants; '
-                  'Go harness and driver. Partial (see level text).',
-    'level_text': "Proof: every placement event of the model cycle satisfies both limits strictly w.r.t. the destination's running load (C04_fits), "
-                  'first assignments never concern an oversized target; for all inputs and schedules. Partial: that the recorded running load equals '
-                  'reported load plus earlier placements is by construction of the model (mk_event reads the plan) and validated differentially, not '
-                  'yet a separate theorem; "never causes a scale-up" is checked by the monitor, not yet a theorem.',
+                  'Go harness and driver.',
+    'level_text': "Proof: for all inputs, option sets and schedules - every placement event of the model cycle satisfies both limits strictly "
+                  "w.r.t. the destination's running load (C04_fits); that running load IS the load the shard reported in this cycle plus everything "
+                  'placed on it earlier in the cycle by relief, assignment and scale-down moves alike (C04_running_load); hence reported load plus '
+                  'everything placed during the cycle stays strictly below the limits (C04_reported_plus_placed_fits); first assignments never '
+                  'concern an oversized target, and assignment skips such a target without counting needed space (no scale-up). The monitor '
+                  'evaluates the same statements on the POST bodies and scale requests of the real cycle.',
     'rule': 'one PRNG: 1-4 shards (1-6 thorough), 0-5 targets (0-7) over 1-2 jobs; each shard independently ready / status-GET fails / runtime-GET '
             'fails / hash differs with push accepted, rejected, still different, re-check failing (65% in sync); per copy state, health, scrape '
             'count from {0,1,2,3,4,5,9}; series/total around the limits (L-1,L,L+1,L/2,...; total >> series); reported loads consistent, at the '
@@ -188,7 +190,7 @@ PROPS = {
             'min/max shard around the current count; explorer results present/absent/bad/unknown; failing POSTs and failing early scale request; '
             'malformed stream: min>max, max_proc=0. Membership under ALL schedules of the model (enumerated, budget 6000). non-trivial = the cycle '
             'sent at least one target POST or requested a scale different from the current count; distinct by input',
-    'theorems': 'C04_fits C04_oversized_never_assigned',
+    'theorems': 'C04_fits C04_running_load C04_reported_plus_placed_fits C04_oversized_never_assigned C04_oversized_adds_no_need',
     'trusted_base': [   'model Model/Coordinator.v hand-written from rebalance.go/coordinator.go/shard.go; tie = differential run of the real '
                         'Coordinator (hook VerifRunOnce) against scripted shards through Shard.APIGet/APIPost, compared under every schedule of the '
                         'model',
